@@ -63,7 +63,7 @@ type Case struct {
 
 func setup() {
 	c := ev.C()
-	c.Rule = "the client library driven through a scripted stub GRIBIClient: RIB-ack or FIB-ack mode, 1-6 requests of 1-20 operations over all entry kinds queued at drawn points, and an adversarial server schedule: results in any order across ids that keeps RIB-before-FIB per id (FAILED | RIB_PROGRAMMED | RIB then FIB_PROGRAMMED/FIB_FAILED/FAILED | FIB_PROGRAMMED alone), arbitrarily grouped into responses, interleaved with the election and session-parameter responses; plus violating schedules (result for an unknown id, duplicate terminal result, multi-field response); plus an operation id handed in a second time while unanswered (inside one request or in a later one), every distinct id answered once: AwaitConverged must not return nil. Pending/Results/Status are polled concurrently by a sampler goroutine. Oracle (client model: queued -> pending -> terminal result): at every probe and at the end each handed-over id is in exactly one of pending / terminal-result, result sequences per id equal what the server sent, every result carries the operation type and key of its id, a RIB ack never completes an operation in FIB-ack mode, AwaitConverged returns nil iff nothing is pending and no error was recorded (checked in both directions) and a *ClientErr with the recorded errors after a violating schedule. Non-trivial = results reordered across ids or >=2 results in one response, or FIB-ack mode with the RIB and FIB acks of an id in different responses; distinct by FNV-64 of the case JSON."
+	c.Rule = "the client library driven through a scripted stub GRIBIClient: RIB-ack or FIB-ack mode, 1-6 requests of 1-20 operations over all entry kinds queued at drawn points, and an adversarial server schedule: results in any order across ids that keeps RIB-before-FIB per id (FAILED | RIB_PROGRAMMED | RIB then FIB_PROGRAMMED/FIB_FAILED/FAILED | FIB_PROGRAMMED alone), arbitrarily grouped into responses, interleaved with the election and session-parameter responses; plus violating schedules (result for an unknown id, duplicate terminal result, multi-field response); plus an operation id handed in a second time while unanswered (inside one request or in a later one), every distinct id answered once: AwaitConverged must not return nil. The application acknowledges results at drawn points (AckResult: exactly those results leave Results(), ids without a result are reported as an error). Pending/Results/Status are polled concurrently by a sampler goroutine. Oracle (client model: queued -> pending -> terminal result): at every probe and at the end each handed-over id is in exactly one of pending / terminal-result, result sequences per id equal what the server sent, every result carries the operation type and key of its id, a RIB ack never completes an operation in FIB-ack mode, AwaitConverged returns nil iff nothing is pending and no error was recorded (checked in both directions) and a *ClientErr with the recorded errors after a violating schedule. Non-trivial = results reordered across ids or >=2 results in one response, or FIB-ack mode with the RIB and FIB acks of an id in different responses; distinct by FNV-64 of the case JSON."
 	c.Assumptions = []string{"client.BusyLoopDelay is set to 1ms (exported tunable); negative AwaitConverged expectations use a 5ms context and only assert that nil is NOT returned"}
 }
 
@@ -108,6 +108,7 @@ type world struct {
 	unsure                      map[uint64]bool // ids answered in the same response as a violating result
 	recvStopped                 bool
 	reorder, grouped, splitAcks bool
+	acked                       map[uint64]bool // completed ids whose results the application acknowledged (AckResult)
 }
 
 func (w *world) fail(sig, f string, a ...any) { w.v.Fail("C13/"+sig, f, a...) }
@@ -125,8 +126,15 @@ func (w *world) modelPending() []uint64 {
 
 // probe samples the client's view once everything sent so far was processed.
 func (w *world) probe(when string) bool {
-	// wait until the client has processed everything the server sent: its
-	// receiver comes back to Recv, or it stops (Done is signalled)
+	if !w.syncRecv(when) {
+		return false
+	}
+	return w.probeState(when)
+}
+
+// syncRecv waits until the client has processed everything the server sent: its
+// receiver comes back to Recv, or it stops (Done is signalled).
+func (w *world) syncRecv(when string) bool {
 	if !w.recvStopped {
 		came := make(chan bool, 1)
 		go func() { came <- w.st.WaitRecvCalls(w.resps + 1) }()
@@ -145,6 +153,10 @@ func (w *world) probe(when string) bool {
 			}
 		}
 	}
+	return true
+}
+
+func (w *world) probeState(when string) bool {
 	pend, err := w.cl.Pending()
 	if err != nil {
 		w.fail("pending-error", "%s: %v", when, err)
@@ -225,6 +237,11 @@ func (w *world) probe(when string) bool {
 		}
 		if r.Details.Type != wantT || k != spec.Kind+":"+spec.Key {
 			w.fail("result-details", "%s: result for operation %d carries type %v key %q, the operation was %s %s:%s", when, r.OperationID, r.Details.Type, k, spec.Act, spec.Kind, spec.Key)
+		}
+	}
+	for id := range w.acked {
+		if len(perID[id]) > 0 && !w.bad {
+			w.fail("ack-did-not-remove", "%s: the results of operation %d were acknowledged with AckResult but Results() still has %v", when, id, perID[id])
 		}
 	}
 	for id := range w.handed {
@@ -315,7 +332,7 @@ func runCase(c Case) *ev.Verdict {
 		return v
 	}
 	cl.StartSending()
-	w := &world{c: c, v: v, cl: cl, st: stub.Stream(0), ops: map[uint64]OpSpec{}, handed: map[uint64]bool{}, seq: map[uint64][]spb.AFTResult_Status{}, done: map[uint64]bool{}, paramsPending: true, elecPending: true}
+	w := &world{c: c, v: v, cl: cl, st: stub.Stream(0), ops: map[uint64]OpSpec{}, handed: map[uint64]bool{}, seq: map[uint64][]spb.AFTResult_Status{}, done: map[uint64]bool{}, paramsPending: true, elecPending: true, acked: map[uint64]bool{}}
 	defer func() {
 		done := make(chan struct{})
 		go func() { cl.Close(); close(done) }()
@@ -375,8 +392,16 @@ func runCase(c Case) *ev.Verdict {
 					nterm[r.OperationID]++
 				}
 			}
+			var h2 map[uint64]bool
 			for id := range h {
 				if !inPend[id] && nterm[id] == 0 {
+					// (unless the application acknowledged its results between the two looks)
+					if h2 == nil {
+						h2 = handedSnap()
+					}
+					if !h2[id] {
+						continue
+					}
 					sampleErr.Store(fmt.Sprintf("operation %d is neither pending nor has a terminal result (lost)", id))
 					return
 				}
@@ -505,7 +530,9 @@ func runCase(c Case) *ev.Verdict {
 				var did uint64
 				var cands []uint64
 				for x := range w.done {
-					cands = append(cands, x)
+					if len(w.seq[x]) > 0 { // (not one whose results the application acknowledged)
+						cands = append(cands, x)
+					}
 				}
 				sort.Slice(cands, func(i, j int) bool { return cands[i] < cands[j] })
 				if len(cands) > 0 {
@@ -571,6 +598,54 @@ func runCase(c Case) *ev.Verdict {
 			w.bad = true
 		case "probe":
 			if !w.probe(when) {
+				return v
+			}
+		case "ack":
+			// the application acknowledges results (AckResult): they leave Results(), every
+			// other result stays; ids that have no result are reported as an error
+			if w.bad || w.recvStopped {
+				continue
+			}
+			if !w.syncRecv(when) {
+				return v
+			}
+			var list []*client.OpResult
+			var present, absent []uint64
+			seen := map[uint64]bool{}
+			for _, r := range e.Results {
+				if seen[r.ID] || !w.handed[r.ID] && !w.acked[r.ID] {
+					continue
+				}
+				seen[r.ID] = true
+				list = append(list, &client.OpResult{OperationID: r.ID})
+				if len(w.seq[r.ID]) > 0 {
+					present = append(present, r.ID)
+				} else {
+					absent = append(absent, r.ID)
+				}
+			}
+			if len(list) == 0 {
+				continue
+			}
+			// (the sampler must not take an acknowledged, completed operation for a lost one)
+			handedMu.Lock()
+			for _, id := range present {
+				if w.done[id] {
+					delete(w.handed, id)
+					w.acked[id] = true
+				}
+				w.seq[id] = nil
+			}
+			handedMu.Unlock()
+			aerr := cl.AckResult(list...)
+			switch {
+			case len(absent) > 0 && aerr == nil:
+				w.fail("ack-of-missing-result-ok", "%s: AckResult for operations %v, which have no result, returned nil", when, absent)
+			case len(absent) == 0 && aerr != nil:
+				w.fail("ack-error", "%s: AckResult for operations %v, which all have results, returned %v", when, present, aerr)
+			}
+			v.Class("results-acknowledged")
+			if !w.probeState(when) {
 				return v
 			}
 		}
@@ -737,6 +812,12 @@ func drawCase(rt *rapid.T) Case {
 		case k == 4 && !sentElec:
 			c.Events = append(c.Events, Event{K: "elec-resp"})
 			sentElec = true
+		case k == 5 && rapid.IntRange(0, 2).Draw(rt, "ack?") == 0 && lastID[nreq-1] > 0:
+			e := Event{K: "ack"}
+			for j := rapid.IntRange(1, 3).Draw(rt, "nack"); j > 0; j-- {
+				e.Results = append(e.Results, Result{ID: uint64(rapid.IntRange(1, int(lastID[nreq-1])).Draw(rt, "ackid"))})
+			}
+			c.Events = append(c.Events, e)
 		case k == 5:
 			c.Events = append(c.Events, Event{K: "probe"})
 		case len(avail) > 0:
